@@ -255,8 +255,26 @@ func mapReduceWithPanicChan[T, U, V any](source <-chan T, panicChan *onceChan, m
 	output := make(chan V)
 	defer func() {
 		// reducer can only write once, if more, panic
-		for range output {
+		select {
+		case _, ok := <-output:
+			if !ok {
+				return
+			}
+
 			panic("more than one element written in reducer")
+		default:
+		}
+
+		// the result was taken and output is not closed yet, a user function that panics
+		// from now on must be received here, otherwise it blocks on panicChan forever
+		// and output is never closed.
+		select {
+		case v := <-panicChan.channel:
+			panic(v)
+		case _, ok := <-output:
+			if ok {
+				panic("more than one element written in reducer")
+			}
 		}
 	}()
 
